@@ -168,7 +168,8 @@ def gen_profile(rng, max_statements=40, hostile=True, force=None, variants=True)
                 st["kw"].append(name)
             elif kind == "opt":  # variant
                 if variants and rng.random() < 0.35:
-                    v = rng.choice([b"default", b"variant1", b"my variant", b"v-2"])
+                    # (only the exact name "default" stands for the block without a variant)
+                    v = rng.choice([b"default", b"variant1", b"my variant", b"v-2", b"Default", b"DEFAULT", b"default ", b"defaults"])
                     raw = lit_encode(v, rng, False)
                     s.tokens.append('"' + raw + '"')
                     newpath.append('"' + raw + '"')
